@@ -14,7 +14,11 @@ var reRegister = regexp.MustCompile(`proto\.RegisterType\(\(\*(\w+)\)\(nil\), "(
 // import closure of ./app that define a Msg service (generated *.pb.go files are
 // parsed for proto.RegisterType and _Msg_serviceDesc). Value: defined in this repository.
 func (p *Prog) registeredMsgTypes() map[string]bool {
-	cmd := exec.Command("go", "list", "-deps", "-f", "{{.Dir}}", "./app")
+	args := []string{"list", "-deps", "-f", "{{.Dir}}"}
+	if p.overlayJSON != "" {
+		args = append(args, "-overlay="+p.overlayJSON)
+	}
+	cmd := exec.Command("go", append(args, "./app")...)
 	cmd.Dir = p.Dir
 	cmd.Env = append(os.Environ(), "GOFLAGS=-mod=mod", "GOPROXY=off", "GOSUMDB=off", "GOTOOLCHAIN=local", "GOWORK=off")
 	out, err := cmd.Output()
@@ -38,6 +42,9 @@ func (p *Prog) registeredMsgTypes() map[string]bool {
 		var names []string
 		for _, f := range files {
 			b, err := os.ReadFile(f)
+			if ob, ok := p.Overlay[f]; ok {
+				b, err = ob, nil
+			}
 			if err != nil {
 				continue
 			}
